@@ -683,6 +683,12 @@ pub fn exec(r: &mut Rng, n: usize, thorough: bool, out: &mut Out) {
             alloc_fact(out);
         }
     }
+    // the heap a covenant starts with (`Executor::new_from_env`: value.rs conversions of transaction, coin and header,
+    // slot layout) against the model's `heapOfEnv` - whatever the program is (the heap must not depend on it)
+    for i in 0..(if thorough { 400 } else { 40 }) {
+        let (op, res) = env_line(r, i);
+        out.emit(&op, &res);
+    }
     for ops in big_value_cases() {
         if let Some(l) = run_line_cap(&ops, &heap0, 1 << 18) {
             out.emit2(l);
@@ -706,4 +712,74 @@ pub fn exec(r: &mut Rng, n: usize, thorough: bool, out: &mut Out) {
             out.discarded += 1;
         }
     }
+}
+
+
+/// one `env` operation on a hand-made transaction, coin and header with boundary-heavy field values
+pub fn env_line(r: &mut Rng, i: usize) -> (String, String) {
+    use melstructs::*;
+    let h32 = |r: &mut Rng| tmelcrypt::HashVal(<[u8; 32]>::try_from(r.bytes(32)).unwrap());
+    let big = |r: &mut Rng| -> u128 {
+        *r.pick(&[0u128, 1, 255, 256, 65535, 65536, u32::MAX as u128, 1 << 32, u64::MAX as u128, 1 << 64, (1 << 64) + 7, 1 << 100, (1 << 120) - 1, 1 << 120, u128::MAX >> 1, u128::MAX])
+    };
+    let denom = |r: &mut Rng| match r.below(5) {
+        0 => Denom::Mel,
+        1 => Denom::Sym,
+        2 => Denom::Erg,
+        3 => Denom::NewCustom,
+        _ => Denom::Custom(TxHash(h32(r))),
+    };
+    let coindata = |r: &mut Rng| {
+        let n = *r.pick(&[0usize, 0, 1, 5, 32, 300]);
+        CoinData { covhash: Address(h32(r)), value: CoinValue(big(r)), denom: denom(r), additional_data: r.bytes(n).into() }
+    };
+    let kinds = [TxKind::Normal, TxKind::Stake, TxKind::DoscMint, TxKind::Swap, TxKind::LiqDeposit, TxKind::LiqWithdraw, TxKind::Faucet];
+    let n_in = *r.pick(&[0usize, 1, 1, 2, 3, 9]);
+    let n_out = *r.pick(&[0usize, 1, 1, 2, 4]);
+    let tx = Transaction {
+        kind: kinds[r.below(kinds.len() as u64) as usize],
+        inputs: (0..n_in).map(|_| CoinID { txhash: TxHash(h32(r)), index: *r.pick(&[0u8, 1, 7, 255]) }).collect(),
+        outputs: (0..n_out).map(|_| coindata(r)).collect(),
+        fee: CoinValue(big(r)),
+        covenants: (0..r.below(3)).map(|_| { let n = *r.pick(&[0usize, 1, 8, 40]); r.bytes(n).into() }).collect(),
+        data: { let n = *r.pick(&[0usize, 0, 1, 32, 200]); r.bytes(n).into() },
+        sigs: (0..r.below(3)).map(|_| { let n = *r.pick(&[0usize, 64, 65, 3]); r.bytes(n).into() }).collect(),
+    };
+    let parent = CoinID { txhash: TxHash(h32(r)), index: *r.pick(&[0u8, 1, 200, 255]) };
+    let cdh = CoinDataHeight { coin_data: coindata(r), height: BlockHeight(*r.pick(&[0u64, 1, 499, 65535, 65536, u32::MAX as u64, 1 << 32, 978392, u64::MAX])) };
+    let nets = [NetID::Mainnet, NetID::Testnet, NetID::Custom02, NetID::Custom08];
+    let hdr = Header {
+        network: nets[r.below(4) as usize],
+        previous: h32(r),
+        height: BlockHeight(*r.pick(&[0u64, 1, 500, 1 << 32, u64::MAX])),
+        history_hash: h32(r),
+        coins_hash: h32(r),
+        transactions_hash: h32(r),
+        fee_pool: CoinValue(big(r)),
+        fee_multiplier: big(r),
+        dosc_speed: big(r),
+        pools_hash: h32(r),
+        stakes_hash: h32(r),
+    };
+    let idx = *r.pick(&[0u8, 1, 2, 100, 255]);
+    // the program the executor is created for must not matter
+    let instrs = match i % 4 {
+        0 => vec![],
+        1 => vec![OpCode::PushI(0u8.into()), OpCode::Load],
+        2 => vec![OpCode::LoadImm(0)],
+        _ => vec![OpCode::LoadImm(7), OpCode::Noop],
+    };
+    let env = melvm::CovenantEnv { parent_coinid: parent, parent_cdh: cdh.clone(), spender_index: idx, last_header: hdr };
+    let tx2 = tx.clone();
+    let heap = catch_unwind(AssertUnwindSafe(move || melvm::VerifExecutor::new_from_env(instrs, tx2, Some(env)).heap));
+    let op = format!(
+        "env {} {} {}@{} {} {}",
+        crate::statefmt::tx_text(&tx),
+        crate::statefmt::coinid_text(&parent),
+        crate::statefmt::coindata_text(&cdh.coin_data),
+        cdh.height.0,
+        idx,
+        crate::statefmt::header_text(&hdr)
+    );
+    (op, match heap { Ok(h) => format!("ok {}", heap_text(&h)), Err(_) => "panic".into() })
 }
